@@ -30,6 +30,7 @@ OPS = {
     "open_tx_pipe": [A5, B5, S3, L6],
     "address": [-1, 0, 1, 3, 6],
     "listen=": [True, False], "listen": [None],
+    "start_carrier_wave": [None], "stop_carrier_wave": [None],
 }
 LITE_OPS = ["channel=", "channel", "data_rate=", "data_rate", "pa_level=", "pa_level", "address_length=", "address_length",
             "arc=", "arc", "ard=", "ard", "dynamic_payloads=", "dynamic_payloads", "payload_length=", "payload_length",
@@ -92,6 +93,9 @@ def invoke(nrf, op, a):
         return getattr(nrf, op)(a)
     if op == "get_auto_retries":
         return nrf.get_auto_retries()
+    if op in ("start_carrier_wave", "stop_carrier_wave"):
+        getattr(nrf, op)()
+        return None
     return getattr(nrf, op)
 
 
